@@ -127,6 +127,7 @@ type abstraction struct {
 }
 
 type Gen struct {
+	rootLoopSigs    []string
 	ownedCache      map[*ssa.Function]map[ssa.Value]bool
 	loopSigs        []string
 	loopRemapped    bool
@@ -481,6 +482,9 @@ func (g *Gen) findLoops() {
 	g.loopSigs = nil
 	for _, h := range heads {
 		g.loopSigs = append(g.loopSigs, sigOf(h))
+	}
+	if g.fn == g.rootFn {
+		g.rootLoopSigs = append([]string(nil), g.loopSigs...)
 	}
 	ordOf := map[*ssa.BasicBlock]int{}
 	for i, h := range heads {
@@ -873,9 +877,26 @@ func (g *Gen) inlineCall(st *State, fn *ssa.Function, args []Val, binds []Val, r
 	g.spec = g.W.specFor(fn)
 	g.findLoops()
 	if g.W.isNewFunc(fn) && len(g.loops) > 0 {
-		// a loop that the change moved into a new helper has lost its invariant (the contract of the enclosing function
-		// addresses loops of that function only): what is proved behind such a loop rests on type facts alone
-		g.note("inline-loop", "helper "+fn.Name()+" (not on the baseline tree) has loops without invariants: failures of this function are not decided")
+		// a loop that the change MOVED out of the function under contract into a new helper has lost its invariant (the
+		// contract addresses loops of that function only): what is proved behind it rests on type facts alone, so failures
+		// are drift, not violations.  Recognised by signature: a loop the baseline recorded for the root function is gone
+		// there and a loop with that signature is in the helper.  A helper with loops of its own (new code) is simply executed.
+		base := g.W.baseLoopSigs[g.rootFn.Pkg.Pkg.Path()+"::"+g.rootFn.RelString(g.rootFn.Pkg.Pkg)]
+		have := map[string]bool{}
+		for _, sg := range g.rootLoopSigs {
+			have[sg] = true
+		}
+		moved := false
+		for _, hs := range g.loopSigs {
+			for _, bs := range base {
+				if bs == hs && !have[bs] {
+					moved = true
+				}
+			}
+		}
+		if moved {
+			g.note("inline-loop", "helper "+fn.Name()+" (not on the baseline tree) took over a loop of this function, without its invariant: failures of this function are not decided")
+		}
 	}
 	g.findEscaping()
 	if !g.discovery {
